@@ -27,6 +27,8 @@ struct Cfg {
     boot_cap: usize,
     /// apply the `&self` operations to `.view()` as well
     views: bool,
+    /// number of constant raw-word scripts (of 8) used for the randomised operations
+    raw_words: usize,
 }
 
 #[derive(Default)]
@@ -87,6 +89,16 @@ fn draw_scripts(range: usize, len: usize, cap: usize) -> Vec<Vec<usize>> {
     }
 }
 
+/// Raw-word scripts: constant words (all zero bits, all one bits, the two halves, alternating bit
+/// patterns, ...) and the two alternations of the extremes.
+fn raw_scripts(words: usize, len: usize) -> Vec<Vec<usize>> {
+    let all: [usize; 8] = [0, usize::MAX, usize::MAX / 2, usize::MAX / 2 + 1, 0x5555_5555_5555_5555, 0xAAAA_AAAA_AAAA_AAAA, 1, usize::MAX - 1];
+    let mut v: Vec<Vec<usize>> = all[..words.min(8)].iter().map(|&w| vec![w; len]).collect();
+    v.push((0..len).map(|k| if k % 2 == 0 { 0 } else { usize::MAX }).collect());
+    v.push((0..len).map(|k| if k % 2 == 0 { usize::MAX } else { 0 }).collect());
+    v
+}
+
 fn actions_of(m: &Model, cfg: &Cfg) -> Vec<Act> {
     let n = m.n();
     let mut a = Vec::new();
@@ -105,33 +117,47 @@ fn actions_of(m: &Model, cfg: &Cfg) -> Vec<Act> {
     let views: &[bool] = if cfg.views { &[false, true] } else { &[false] };
     for &view in views {
         for script in shuffle_scripts(n, cfg.shuffle_cap) {
-            a.push(Act::Shuffle { view, script });
+            a.push(Act::Shuffle { view, script, raw: false });
         }
         if n >= 1 && m.nf >= 1 {
             for mm in [1usize, 2, 3] {
                 for script in draw_scripts(n, mm, cfg.boot_cap) {
-                    a.push(Act::BootSamples { view, m: mm, items: 1, script });
+                    a.push(Act::BootSamples { view, m: mm, items: 1, script, raw: false });
                 }
             }
             // two consecutive items of the (infinite) iterator
             for script in draw_scripts(n, 2, cfg.boot_cap) {
-                a.push(Act::BootSamples { view, m: 1, items: 2, script });
+                a.push(Act::BootSamples { view, m: 1, items: 2, script, raw: false });
             }
             for q in [1usize, 2] {
                 for script in draw_scripts(m.nf, q, cfg.boot_cap) {
-                    a.push(Act::BootFeatures { view, q, items: 1, script });
+                    a.push(Act::BootFeatures { view, q, items: 1, script, raw: false });
                 }
             }
             for script in draw_scripts(m.nf, 2, cfg.boot_cap) {
-                a.push(Act::BootFeatures { view, q: 1, items: 2, script });
+                a.push(Act::BootFeatures { view, q: 1, items: 2, script, raw: false });
             }
             for rows in draw_scripts(n, 2, cfg.boot_cap.min(9)) {
                 for cols in draw_scripts(m.nf, 2, cfg.boot_cap.min(9)) {
                     let mut script = rows.clone();
                     script.extend(cols);
-                    a.push(Act::Boot { view, m: 2, q: 2, script });
+                    a.push(Act::Boot { view, m: 2, q: 2, script, raw: false });
                 }
             }
+        }
+        if n >= 1 && m.nf >= 1 {
+            // extreme answers of the generator as raw 64-bit words (owned value only), and the
+            // per-index coverage runs
+            if !view {
+                for script in raw_scripts(cfg.raw_words, 2 * n.max(4) + 2) {
+                    a.push(Act::Shuffle { view, script: script.clone(), raw: true });
+                    a.push(Act::BootSamples { view, m: 2, items: 2, script: script.clone(), raw: true });
+                    a.push(Act::BootFeatures { view, q: 2, items: 2, script: script.clone(), raw: true });
+                    a.push(Act::Boot { view, m: 2, q: 2, script, raw: true });
+                }
+            }
+            a.push(Act::DrawCoverage { view, features: false });
+            a.push(Act::DrawCoverage { view, features: true });
         }
         for s in en::subsets_upto(3, 1, 3) {
             a.push(Act::WithLabels { view, labels: s });
@@ -223,7 +249,7 @@ fn main() {
 
     let depth = ctx.pick(2usize, 3usize);
     let deep_extra = ctx.pick(0usize, 1usize); // seeds with n <= 3 go one level deeper in the thorough tier
-    let cfg = Cfg { shuffle_cap: ctx.pick(6, 24), boot_cap: ctx.pick(9, 27), views: true };
+    let cfg = Cfg { shuffle_cap: ctx.pick(6, 24), boot_cap: ctx.pick(9, 27), views: true, raw_words: ctx.pick(4, 8) };
 
     ctx.set_rule(
         "states = datasets as vectors of tagged rows (record tag 100*(sample+1)+feature, weight 0.5+sample) with target kind, CountedTargets wrapper, names and record memory order; \
@@ -242,7 +268,7 @@ fn main() {
     ctx.assume("one_vs_all results (CountedTargets<bool,..>) continue as states with labels 0/1 of type usize (same generic code)");
     ctx.assume("split size = ceil of the single-precision product, computed as ((n as f64 * r as f64) as f32).ceil() (exact double product, one rounding); discrete outputs are compared exactly, no tolerance anywhere");
     ctx.assume("weights / names are only checked when the result carries them (statement: 'whenever the result carries weights or names'); dropping them is accepted except for with_labels, whose rustdoc promises that weights and feature names are preserved");
-    ctx.assume("randomised operations are held to their contract only (shuffle: permutation of all rows; bootstrap: existing rows / features, requested shape, row alignment); the scripted generator relies on rand 0.8's widening-multiply range mapping only for coverage (scripts_honoured is measured, never judged)");
+    ctx.assume("randomised operations run under a scripted generator and are compared in lock-step with rand 0.8's own gen_range(0..n) / slice shuffle on an identical generator (the documented selection is uniform with replacement / a uniform shuffle, which linfa implements with exactly these calls; a different mapping of random words to indices is reported); scripts: every wanted index vector up to the caps, a catalogue above, constant and alternating raw 64-bit words (all zero bits, all one bits, halves, 0x55.. / 0xAA..); per state and operation the runs 'every draw answers d' for d = 0..n-1 must draw every sample / feature index (index_never_drawn)");
     ctx.assume("domain: bootstrap needs n >= 1 and f >= 1 (nothing to draw otherwise), fold(k) needs k <= n, sample_chunks(c) needs c >= 1, target_iter needs 2-d targets (documented), into_single_target needs a 2-d single column (documented); owned split_with_ratio on records or targets that are not row-major (column-major, reversed, strided) must panic as documented (counted in documented_panics_checked); sample_chunks yields floor(n/c) full chunks (tail dropped, as iter_fold relies on)");
     ctx.assume(&format!("bounds: depth {} (+{} for seeds with n <= 3); shuffle scripts exhaustive while n! <= {}, bootstrap index vectors exhaustive while their number <= {}", depth, deep_extra, cfg.shuffle_cap, cfg.boot_cap));
 
@@ -388,16 +414,16 @@ fn main() {
                 }
                 for view in [false, true] {
                     for script in shuffle_scripts(n, 0) {
-                        acts.push(Act::Shuffle { view, script });
+                        acts.push(Act::Shuffle { view, script, raw: false });
                     }
                     for script in draw_scripts(n, n, 0) {
-                        acts.push(Act::BootSamples { view, m: n, items: 1, script });
+                        acts.push(Act::BootSamples { view, m: n, items: 1, script, raw: false });
                     }
                     for script in draw_scripts(n, 1025, 0) {
-                        acts.push(Act::BootSamples { view, m: 1025, items: 1, script });
+                        acts.push(Act::BootSamples { view, m: 1025, items: 1, script, raw: false });
                     }
                     for script in draw_scripts(2, 2, 4) {
-                        acts.push(Act::BootFeatures { view, q: 2, items: 1, script });
+                        acts.push(Act::BootFeatures { view, q: 2, items: 1, script, raw: false });
                     }
                     for sub in en::subsets_upto(3, 1, 3) {
                         acts.push(Act::WithLabels { view, labels: sub });
@@ -412,6 +438,13 @@ fn main() {
                     }
                     acts.push(Act::SampleIter { view });
                     acts.push(Act::FeatureIter { view });
+                    acts.push(Act::DrawCoverage { view, features: true });
+                    if !view {
+                        for script in raw_scripts(8, 2 * n + 2) {
+                            acts.push(Act::Shuffle { view, script: script.clone(), raw: true });
+                            acts.push(Act::BootSamples { view, m: n, items: 1, script, raw: true });
+                        }
+                    }
                     acts.push(Act::ToOwned { view });
                     acts.push(Act::MapTargets { view });
                     acts.push(Act::Fold { view, k: 3 });
